@@ -128,6 +128,10 @@ def c10_fails(rec, ctx):
     elif rec["impl"].startswith("alt noroute"):
         if single is not None and cl.status_of(single["impl"]) != cl.status_of(rec["impl"]):
             reasons.append("status/reason differs from the plain query")
+    elif single is not None and single["impl"].startswith(("route ok", "route noroute")) and cl.dom_of(single):
+        # neither routes nor a no-routing answer (abort, out-of-bounds, hang, stray exception) where the plain query on the same
+        # in-domain input is answered: "succeeds or fails exactly as without alternatives" is violated
+        reasons.append("the alternatives request ends in `%s` while the plain query is answered (%s)" % (" ".join(rec["impl"].split()[:3]), cl.status_of(single["impl"])))
     return ", ".join(reasons) if reasons else None
 
 
